@@ -148,13 +148,24 @@ pub fn run(ctx: &mut Ctx, replay: Option<&[String]>) {
     let n = ctx.scale(1500, 40000);
     let maxdim = ctx.scale(8, 14);
     for case in 0..n {
-        let nr = rng.range(1, maxdim);
-        let nc = rng.range(1, maxdim);
-        let len = if case % 10 == 0 { rng.range(1, 5) } else { rng.range(5, 60) };
+        // every 15th history lives in a tall (resp. wide) matrix and starts by filling one whole column (row): lines of weight 65-100
+        let shape = if case % 15 == 7 { 1 } else if case % 15 == 11 { 2 } else { 0 };
+        let nr = match shape { 1 => rng.range(66, 100), 2 => rng.range(2, 6), _ => rng.range(1, maxdim) };
+        let nc = match shape { 1 => rng.range(2, 6), 2 => rng.range(66, 100), _ => rng.range(1, maxdim) };
+        let len = if shape != 0 { rng.range(5, 25) } else if case % 10 == 0 { rng.range(1, 5) } else { rng.range(5, 60) };
         // 2 % of histories end in an out-of-range operation (must panic on both sides)
         let oor_at = if rng.chance(1, 50) { Some(rng.below(len)) } else { None };
         let mut ops = Vec::new();
         let mut shadow: Vec<(usize, usize)> = Vec::new(); // positions known present (approximate)
+        if shape == 1 {
+            let c = rng.below(nc);
+            ops.push(Op::SetCol(c, (0..nr).collect()));
+            shadow.extend((0..nr).map(|r| (r, c)));
+        } else if shape == 2 {
+            let r = rng.below(nr);
+            ops.push(Op::InsertRow(r, (0..nc).collect()));
+            shadow.extend((0..nc).map(|c| (r, c)));
+        }
         for k in 0..len {
             let oor = oor_at == Some(k);
             let kind = rng.below(100);
